@@ -46,6 +46,13 @@ pub fn encode(mut flags: Flags, src: &[u8]) -> io::Result<Vec<u8>> {
         }
     }
 
+    // Nothing is left for the entropy coders when the input is empty or bit packing reduced a
+    // single-symbol input to nothing.
+    if src.is_empty() {
+        flags.insert(Flags::CAT);
+        dst[0] = u8::from(flags);
+    }
+
     if flags.is_uncompressed() {
         dst.write_all(&src)?;
     } else if flags.uses_external_codec() {
